@@ -180,8 +180,7 @@ impl Ls {
         let size = metadata.size();
         let last_modified = {
             let system_time = metadata.modified().unwrap();
-            let now_utc: DateTime<chrono::Utc> = system_time.into();
-            now_utc.format("%b %e %H:%M")
+            format_time(system_time)
         };
         let path = file_info.path().to_string_lossy();
 
@@ -248,8 +247,7 @@ impl Ls {
         let size = metadata.file_size();
         let last_modified = {
             let system_time = metadata.modified().unwrap();
-            let now_utc: DateTime<chrono::Utc> = system_time.into();
-            now_utc.format("%b %e %H:%M")
+            format_time(system_time)
         };
         let path = file_info.path().to_string_lossy();
 
@@ -279,6 +277,22 @@ impl Ls {
                 }
             }
         }
+    }
+}
+
+/// The time as -ls shows it; one that the calendar cannot express (file
+/// systems store times far beyond its years) as seconds since the epoch.
+fn format_time(time: std::time::SystemTime) -> String {
+    let secs = match time.duration_since(std::time::UNIX_EPOCH) {
+        Ok(after) => i128::from(after.as_secs()),
+        Err(e) => -i128::from(e.duration().as_secs()),
+    };
+    match i64::try_from(secs)
+        .ok()
+        .and_then(|secs| DateTime::from_timestamp(secs, 0))
+    {
+        Some(utc) => utc.format("%b %e %H:%M").to_string(),
+        None => secs.to_string(),
     }
 }
 
